@@ -270,7 +270,7 @@ class _Recorder:
         )
 
 
-def run_property(ctx, strategy, body, max_examples, tag="", shrink_budget_s=None, note=None):
+def run_property(ctx, strategy, body, max_examples, tag="", shrink_budget_s=None, bucket=None):
     """Drive body(case) over strategy with a pinned seed.
 
     body raises PropertyViolation (or lets a library exception escape) on failure.
@@ -300,7 +300,7 @@ def run_property(ctx, strategy, body, max_examples, tag="", shrink_budget_s=None
             _rec(v, case)
             raise
         except Exception as e:  # noqa: BLE001
-            v = as_violation(e, ctx.prop, tag or "case")
+            v = as_violation(e, ctx.prop, bucket or tag or "case")
             if v is None:
                 raise
             if v.key in ctx.known_keys:
